@@ -33,6 +33,8 @@ trait SetApi: Sized + Clone {
     fn from_j(s: &str) -> Result<Self, String>;
     fn e_bytes(e: &Self::E) -> Vec<u8>;
     fn e_json(e: &Self::E) -> String;
+    /// the element decoded from its own CBOR item (None for types whose from_bytes is not a CBOR decoder)
+    fn e_from_b(b: Vec<u8>) -> Option<Self::E>;
 }
 
 macro_rules! set_api {
@@ -71,6 +73,15 @@ macro_rules! set_api {
             }
             fn e_json(e: &$E) -> String {
                 serde_json::to_string(e).unwrap()
+            }
+            fn e_from_b(b: Vec<u8>) -> Option<$E> {
+                // only when the element's to_bytes() IS its CBOR item (not so for the raw hash types)
+                let probe = <$E>::from_bytes(b.clone()).ok()?;
+                if ($eb)(&probe) == probe.to_bytes() {
+                    Some(probe)
+                } else {
+                    None
+                }
             }
         }
     };
@@ -150,6 +161,21 @@ fn field_items(b: &[u8], key: u64) -> Option<Vec<Vec<u8>>> {
     }
 }
 
+/// the same CBOR item with every set tag (258) inside it dropped: another accepted encoding of the
+/// same element (nested sets of credentials / key hashes may come tagged or untagged)
+fn strip_set_tags(n: &refcbor::Node) -> refcbor::Node {
+    use refcbor::Kind;
+    let mut out = n.clone();
+    match &n.kind {
+        Kind::Tag(258, inner) => return strip_set_tags(inner),
+        Kind::Tag(t, inner) => out.kind = Kind::Tag(*t, Box::new(strip_set_tags(inner))),
+        Kind::Array(v) => out.kind = Kind::Array(v.iter().map(strip_set_tags).collect()),
+        Kind::Map(m) => out.kind = Kind::Map(m.iter().map(|(k, v)| (strip_set_tags(k), strip_set_tags(v))).collect()),
+        _ => {}
+    }
+    out
+}
+
 fn first_insertion(hist: &[usize]) -> Vec<usize> {
     let mut m = Vec::new();
     for h in hist {
@@ -169,7 +195,20 @@ fn run_set<T: SetApi>(ctx: &mut Ctx, name: &'static str, elems: &[T::E], contain
     let want: Vec<Vec<u8>> = model.iter().map(|i| eb[*i].clone()).collect();
     let has_dup = model.len() != hist.len();
     let path = ctx.choose(8 + containers.len());
-    let what = |p: &str| format!("{} history {:?} path {}", name, hist, p);
+    // twins: the same elements decoded from an encoding in which their nested sets carry no tag; with
+    // `twin` chosen every second `add` hands over the twin instead of the constructed element
+    let twins: Vec<Option<T::E>> = eb.iter().map(|b| refcbor::parse(b).ok().map(|n| refcbor::emit(&strip_set_tags(&n))).filter(|sb| sb != b).and_then(|sb| T::e_from_b(sb))).collect();
+    let twin = twins.iter().any(|t| t.is_some()) && (path == 0 || path == 6 || path == 7) && ctx.flag();
+    if twin {
+        ctx.hit("path:add-with-twin-encodings-of-nested-sets");
+    }
+    let pick = |k: usize, h: usize| -> T::E {
+        match (&twins[h], twin && k % 2 == 1) {
+            (Some(t), true) => t.clone(),
+            _ => elems[h].clone(),
+        }
+    };
+    let what = |p: &str| format!("{} history {:?} path {}{}", name, hist, p, if twin { " (every second add: the element decoded with its nested sets untagged)" } else { "" });
     ctx.compared();
     if has_dup {
         ctx.hit("history-with-repeat");
@@ -186,8 +225,8 @@ fn run_set<T: SetApi>(ctx: &mut Ctx, name: &'static str, elems: &[T::E], contain
             ctx.hit("path:add");
             let mut s = T::new_();
             let mut seen = Vec::new();
-            for h in &hist {
-                let r = s.add_(&elems[*h]);
+            for (k, h) in hist.iter().enumerate() {
+                let r = s.add_(&pick(k, *h));
                 let fresh = !seen.contains(h);
                 seen.push(*h);
                 if r != fresh {
@@ -222,7 +261,7 @@ fn run_set<T: SetApi>(ctx: &mut Ctx, name: &'static str, elems: &[T::E], contain
             };
             s0.map(|mut s| {
                 for (k, h) in hist.iter().enumerate().skip(split) {
-                    let r = s.add_(&elems[*h]);
+                    let r = s.add_(&pick(k, *h));
                     let fresh = !hist[..k].contains(h);
                     if r != fresh {
                         ctx.violation(format!("{}/set/add-return-value-after-decode/{}", P, name), format!("add returned {} for a {} element ; {}", r, if fresh { "new" } else { "repeated" }, what(&pname)));
@@ -346,7 +385,15 @@ fn sc_sets(ctx: &mut Ctx, max_len: usize) {
             let e: Vec<Certificate> = [13usize, 0, 7, 5].iter().map(|i| ca[*i].cert.clone()).collect();
             run_set::<Certificates>(ctx, "Certificates", &e, &[Container::Body(4)], max_len)
         }
-        4 => run_set::<VotingProposals>(ctx, "VotingProposals", &[proposal(2, 5), proposal(0, 7), proposal(1, 5), proposal(0, 5)], &[Container::Body(20)], max_len),
+        4 => {
+            // the first element holds a nested set (committee members to remove)
+            let mut rm = Credentials::new();
+            rm.add(&cred_key(1));
+            rm.add(&cred_script(0));
+            let act = GovernanceAction::new_new_committee_action(&UpdateCommitteeAction::new(&Committee::new(&UnitInterval::new(&bn(1), &bn(2))), &rm));
+            let uc = VotingProposal::new(&act, &anchor(), &reward_key(1), &bn(5));
+            run_set::<VotingProposals>(ctx, "VotingProposals", &[uc, proposal(0, 7), proposal(1, 5), proposal(0, 5)], &[Container::Body(20)], max_len)
+        }
         5 => {
             let e: Vec<Vkeywitness> = [2usize, 0, 3, 1].iter().map(|i| crate::gen::vkeywitness_i(*i)).collect();
             run_set::<Vkeywitnesses>(ctx, "Vkeywitnesses", &e, &[Container::Ws(0)], max_len)
@@ -799,6 +846,7 @@ pub fn run(tier: Tier, seed: u64) -> i32 {
         "setter:plutus",
         "setter:datums",
         "setter:collection-decoded-from-bytes",
+        "path:add-with-twin-encodings-of-nested-sets",
         "setter:same-bytes-constructed-and-decoded",
         "setter:same-value-different-bytes-both-kept",
         "canonical-order",
